@@ -54,8 +54,16 @@ bits3 = [
     r("impurity_bits_deterministic", secs=60, n=3, d=1, classes=3, pattern=21, wpat=58, wmax=4, crit=1),  # labels 0,1,2 weights 3,3,4
     r("impurity_bits_deterministic", secs=180, jobs=8, n=4, d=1, classes=3, canon=1),
 ]
-quick += bits3
-thorough += bits3
+# fractional (tenths) sample weights: f32 sums of them are order dependent (the node's total weight was summed in
+# hash-map order: F41)
+frac = [
+    r("impurity_bits_deterministic", secs=180, jobs=4, n=4, d=1, classes=3, wpat=-2, wmax=4, wdiv=10, canon=1),
+    r("impurity_bits_deterministic", secs=180, jobs=4, n=4, d=1, classes=3, wpat=-2, wmax=4, wdiv=10, canon=1, crit=1),
+    r("impurity_bits_deterministic", secs=120, jobs=2, n=3, d=1, classes=3, wpat=-2, wmax=7, wdiv=10, canon=1),
+]
+quick += bits3 + frac
+thorough += bits3 + frac
+thorough.append(r("impurity_bits_deterministic", secs=900, jobs=16, n=5, d=1, classes=3, wpat=-2, wmax=6, wdiv=10, canon=1))
 thorough.append(r("impurity_bits_deterministic", secs=900, jobs=16, n=5, d=1, classes=3, canon=1))
 thorough.append(r("impurity_bits_deterministic", secs=900, jobs=16, n=5, d=1, classes=3, canon=1, crit=1))
 thorough.append(r("impurity_bits_deterministic", secs=900, jobs=16, n=3, d=1, classes=3, wpat=-2, wmax=4, crit=1))
